@@ -275,6 +275,20 @@ func VerifC09_adj_deps_fingerprint() {
 func VerifC09_adj_fp_key_value() {
 	neAdjacent("C09.ne.adjacent-fingerprint-key-value", func(s *tstate, x, y string) { s.fpK, s.fpV = []string{x}, []string{y} }, "ab=", "ab=")
 }
+// ... with keys and values long enough to contain something that looks like the other side's framing
+// ("a" -> "b=1:c" against "a=5:b" -> "c"): pieces symbolic, digits chosen
+func VerifC09_adj_fp_key_value_framing_lookalike() {
+	a, b := base(), base()
+	digit := func(n string) string { return []string{"1", "3", "5"}[sym.Choice(n, 3)] }
+	s1, s2 := sym.StringNAlpha("s1", 1, "bc"), sym.StringNAlpha("s2", 1, "bc")
+	t1, t2 := sym.StringNAlpha("t1", 1, "bc"), sym.StringNAlpha("t2", 1, "bc")
+	k1, v1 := "a", s1+"="+digit("n")+":"+s2
+	k2, v2 := "a="+digit("m")+":"+t1, t2
+	a.fpK, a.fpV = []string{k1}, []string{v1}
+	b.fpK, b.fpV = []string{k2}, []string{v2}
+	sym.Reach("C09.ne.adjacent-fingerprint-framing-lookalike")
+	sym.Assert(a.defKey() != b.defKey(), "C09.ne.adjacent-fingerprint-key-value")
+}
 func VerifC09_adj_fp_platform() {
 	neAdjacent("C09.ne.adjacent-fingerprint-platform", func(s *tstate, x, y string) { s.fpV, s.os = []string{x}, y }, "ab/", "ab")
 }
